@@ -24,6 +24,7 @@ CONSTANTS
   BestBeforeClear = %(BestBeforeClear)s
   EofLoops = %(EofLoops)s
   ParserPanics = %(ParserPanics)s
+  Disciplined = %(Disciplined)s
 INVARIANTS TypeOK AtMostOneBest NoGoRefused NoPanic InputAlive OneSearchAtATime StopSticks BestImpliesCleared ReadyAnswered AllAnsweredAtRest SearchedCurrentPosition
 PROPERTIES GoAnswered ReadyLive EofTerminates NeverWedged
 CHECK_DEADLOCK FALSE
@@ -45,6 +46,7 @@ CONSTANTS
   BestBeforeClear = FALSE
   EofLoops = FALSE
   ParserPanics = FALSE
+  Disciplined = %s
 VIEW TView
 CONSTRAINT Progress
 POSTCONDITION Post
@@ -57,10 +59,13 @@ def mc_uci(prop, tier, cov):
     The repaired protocol must satisfy safety and liveness; every legacy switch must yield a
     counterexample (sensitivity of the model)."""
     base = {k: 'FALSE' for k in LEGACY}
+    base['Disciplined'] = 'TRUE'
     if tier == 'quick':
-        cfgs = [dict(base, cmds=4, searches=2, vocab=VOCAB_FULL)]
+        # the second configuration lets the GUI send go at any time: a refused go is then possible, everything else still holds
+        cfgs = [dict(base, cmds=4, searches=2, vocab=VOCAB_FULL), dict(base, cmds=4, searches=3, vocab=VOCAB_RACE, Disciplined='FALSE')]
     else:
-        cfgs = [dict(base, cmds=5, searches=2, vocab=VOCAB_FULL), dict(base, cmds=6, searches=3, vocab=VOCAB_RACE)]
+        cfgs = [dict(base, cmds=5, searches=2, vocab=VOCAB_FULL), dict(base, cmds=6, searches=3, vocab=VOCAB_RACE),
+                dict(base, cmds=5, searches=3, vocab=VOCAB_RACE, Disciplined='FALSE')]
     cov['mc'] = {}
     for i, c in enumerate(cfgs):
         r = model_check('Uci.tla', UCI_MC % c, 'uci-mc-%s-%d-%d' % (prop, i, os.getpid()), timeout=3000)
@@ -260,6 +265,42 @@ def session_hammer(rng, fens):
         e.kill()
 
 
+def session_undisciplined(rng, fens):
+    """a go sent while a search is genuinely running (the engine may refuse it); stop, isready and the
+    searches it did accept must keep working"""
+    e = Engine()
+    try:
+        if rng.random() < 0.5:
+            e.send('position fen ' + rng.choice(fens))
+        for _ in range(rng.randint(1, 3)):
+            e.send('go infinite')
+            if rng.random() < 0.7:
+                e.wait_for('info', 300)
+            for _ in range(rng.randint(1, 2)):
+                e.send(rng.choice(['go depth 1', 'go infinite', 'go nodes 10', 'go movetime 5']))
+                if rng.random() < 0.5:
+                    e.send('isready')
+                    if e.wait_for('readyok', 2500) is None:
+                        e.log({'ev': 'deadline', 'what': 'readyok', 't': e.now()})
+                        return e.events
+            e.send('stop')
+            # every search the engine accepted answers; wait for the first answer, then let the rest drain
+            if e.wait_for('bestmove', 2500) is None:
+                e.log({'ev': 'deadline', 'what': 'bestmove', 't': e.now()})
+                return e.events
+            e.send('stop')
+            e.drain(150)
+        e.send('isready')
+        if e.wait_for('readyok', 2500) is None:
+            e.log({'ev': 'deadline', 'what': 'readyok', 't': e.now()})
+            return e.events
+        e.send('quit')
+        e.wait_exit(2500)
+        return e.events
+    finally:
+        e.kill()
+
+
 def session_c14(rng, fens):
     e = Engine()
     try:
@@ -348,6 +389,12 @@ def systematic_lines():
             'isr\u00e9ady \u265e', 'stop\x0b', 'setoption name ' + 'A' * 5000 + ' value 1', 'go depth 0', 'go depth 255', 'go depth 256',
             'go nodes 0', 'go nodes 18446744073709551615', 'go nodes 18446744073709551616', 'go movetime 340282366920938463463374607431768211455',
             'go wtime 18446744073709551615 btime 18446744073709551615 winc 18446744073709551615 binc 18446744073709551615']
+    # multi-byte characters at every byte offset of the first word (and a later one)
+    for ch in ['\u00e9', '\u265e', '\U0001F600']:
+        for k in range(0, 36, 1 if ch == '\u00e9' else 3):
+            out.append('a' * k + ch + 'a' * 4)
+        out.append('go ' + 'a' * 14 + ch)
+        out.append(ch * 12)
     return out
 
 
@@ -424,7 +471,7 @@ def validate_uci(path, mode):
     name = 'ut-%s-%s-%d' % (mode, os.path.basename(path).replace('.ndjson', ''), os.getpid())
     t0 = time.time()
     try:
-        rc, out = run_tlc('UciTrace.tla', TRACE_CFG % mode, name, workers=1, timeout=3000,
+        rc, out = run_tlc('UciTrace.tla', TRACE_CFG % (mode, 'FALSE' if mode == 'C10U' else 'TRUE'), name, workers=1, timeout=3000,
                           env_extra={'TRACE': os.path.abspath(path)}, jvm=TRACE_JVM)
     except ToolError as ex:
         return {'file': path, 'status': 'error', 'detail': str(ex)}
@@ -522,6 +569,40 @@ def run_process_level(prop, tier, seed, verdict, cov):
             sigs.add(key)
             verdict.report(sig, {'how': 'recorded engine session rejected by UciTrace.tla: no behaviour of Uci.tla explains the next line',
                                  'unmatched_event': bad, 'session': desc}, trace_src=r['file'], cut_line=r['line'])
+    if prop == 'C10':
+        # a go sent into a running search is outside the GUI discipline; the engine may refuse it, but stop,
+        # isready and the searches it accepted must keep working (Uci.tla with Disciplined = FALSE)
+        nu = 40 if tier == 'quick' else 1500
+        with cf.ThreadPoolExecutor(max_workers=PAR[prop]) as ex:
+            usess = list(ex.map(lambda s: session_undisciplined(random.Random(s), fens), [rng.randrange(1 << 30) for _ in range(nu)]))
+        ufiles = []
+        for i in range(0, len(usess), per):
+            p = os.path.join(d, 'uciU-%04d.ndjson' % (i // per))
+            write_batch(p, usess[i:i + per])
+            ufiles.append(p)
+        with cf.ThreadPoolExecutor(max_workers=max(1, NCPU - 2)) as ex:
+            uresults = list(ex.map(lambda f: validate_uci(f, 'C10U'), ufiles))
+        for r in uresults:
+            if r['status'] == 'error':
+                log(r.get('detail', '')[-3000:])
+                raise ToolError('UciTrace (C10U) failed to run on %s' % r['file'])
+            cov['states'] = cov.get('states', 0) + r['states']
+            cov['transitions'] = cov.get('transitions', 0) + r['generated']
+            if r['status'] == 'accept':
+                cov['traces_validated_against_impl'] = cov.get('traces_validated_against_impl', 0) + 1
+            else:
+                evs = session_of(r['file'], r['line'])
+                desc = describe(evs)
+                sig = {'kind': 'session-rejected', 'mode': 'C10U', 'unmatched': (desc[-1] if desc else ''),
+                       'sends': [x[2:] for x in desc if x.startswith('> ')]}
+                key = json.dumps(sig, sort_keys=True)
+                if key in sigs:
+                    continue
+                sigs.add(key)
+                verdict.report(sig, {'how': 'session with a go sent into a running search: rejected by UciTrace.tla (Disciplined = FALSE)',
+                                     'session': desc}, trace_src=r['file'], cut_line=r['line'])
+        cov['undisciplined_sessions'] = len(usess)
+        sessions = sessions + usess
     # coverage numbers
     nev = sum(len(s) for s in sessions)
     distinct = set()
